@@ -85,8 +85,11 @@ def resolve(file, qual):
         modname = modname[:-9]
     mod = importlib.import_module(modname)
     obj = mod
+    owner = None
     for part in qual.split('.'):
-        obj = getattr(obj, part)
+        if part.startswith('__') and not part.endswith('__') and isinstance(obj, type):
+            part = f'_{obj.__name__}{part}'       # private name mangling
+        owner, obj = obj, getattr(obj, part)
     return mod, obj
 
 
@@ -153,6 +156,8 @@ def evaluate(c, case, ns, fn, selfobj, args, ghosts=None, call=None):
         ens, rai, extra = c.get('ensures', {}), c.get('raises', {}), []
         if call is not None and c.get('bounded_ensures'):
             ens = dict(ens, **c['bounded_ensures'])      # clauses of the bounded stand-in only
+        if call is not None and c.get('bounded_raises') and isinstance(rai, dict):
+            rai = dict(rai, **c['bounded_raises'])
     else:
         lem = c['lemmas'][case]
         ens, rai, extra = lem.get('ensures', {}), lem.get('raises', 'never'), lem.get('requires', [])
@@ -160,7 +165,7 @@ def evaluate(c, case, ns, fn, selfobj, args, ghosts=None, call=None):
     pre_ok = True
     for text in list(c.get('requires', [])) + list(c.get('assumes', [])) + list(extra):
         try:
-            if not eval(lazy(text), ns, dict(env)):
+            if not eval(lazy(text), dict(ns, **env)):
                 pre_ok = False
                 out.setdefault('pre_failed', []).append(text)
         except Exception as e:
@@ -172,7 +177,7 @@ def evaluate(c, case, ns, fn, selfobj, args, ghosts=None, call=None):
     olds = {}
     for text in list(ens.values()) + (list(rai.values()) if isinstance(rai, dict) else []):
         for oe in old_exprs(text):
-            olds[oe] = _snapshot(eval(oe, ns, dict(env)))
+            olds[oe] = _snapshot(eval(oe, dict(ns, **env)))
     call_args = dict(args)
     out['args'] = {k: repr(v)[:300] for k, v in call_args.items()}
     out['receiver'] = repr(selfobj)[:300]
@@ -206,7 +211,7 @@ def evaluate(c, case, ns, fn, selfobj, args, ghosts=None, call=None):
             env[key] = val
             t = t.replace(f'old({oe})', key)
         try:
-            ok = bool(eval(lazy(t), ns, dict(env)))
+            ok = bool(eval(lazy(t), dict(ns, **env)))
             out['clauses'][name] = ok
             if not ok:
                 out['violated'].append(('ensures.' if out['outcome'] == 'ret' else 'raises.') + name)
